@@ -156,9 +156,10 @@ fn gen_log_world(seed: u64, idx: usize) -> LogWorldScenario {
             // compressor is certainly still behind when the failure is noticed
             script.fs_write_stall = Some(format!("stdout.zst:1:{}", rng.range(200, 600)));
             let tag = format!("{}@{}", script.behav[bi].command, script.behav[bi].target);
-            for fd in [1u8, 2u8] {
+            // several separate writes, a few flush intervals apart: the later ones queue up behind the stalled one
+            for (k, fd) in [1u8, 2u8, 1u8, 1u8].iter().cloned().enumerate() {
                 let mut v = Vec::new();
-                let total = 150 * 1024 + rng.below(250 * 1024);
+                let total = if k == 0 { 150 * 1024 + rng.below(150 * 1024) } else { 20 * 1024 + rng.below(60 * 1024) };
                 let mut n = 0;
                 while v.len() < total {
                     n += 1;
@@ -168,7 +169,7 @@ fn gen_log_world(seed: u64, idx: usize) -> LogWorldScenario {
                     }
                     v.push(b'\n');
                 }
-                script.behav[bi].outs.push(OutStep { fd, hex: hex(&v), pause_ms: 0 });
+                script.behav[bi].outs.push(OutStep { fd, hex: hex(&v), pause_ms: if k == 0 { 0 } else { 25 } });
             }
         }
     }
